@@ -1216,6 +1216,40 @@ func ringRule(c *Ctx, ruleID string) {
 		})
 		L.Check(!esc, ruleID, "ringBuffer.Push", "stripe = pool.Get(); stripe.Push(item); pool.Put(stripe) on every path, not stored elsewhere", "the stripe escapes the Get/Put window", fn.Pos())
 	})
+	c.Group(ruleID, "defaultPolicy.Push#verdict", func() {
+		// the stripe believes Push: `true` means "the batch now belongs to the policy goroutine" (the stripe
+		// takes a fresh slice), `false` "keep and reuse it". Push answers true exactly on the paths on which the
+		// batch was sent (or there was nothing to send) - a `false` after a successful send makes the stripe
+		// overwrite a batch the policy goroutine is reading, a `true` after a drop leaks nothing but loses it
+		fn := P.Fn("ristretto", "defaultPolicy", "Push")
+		tb := newTB(fn)
+		var sel *ssa.Select
+		for _, s := range sendsIn(fn) {
+			if s.Sel != nil && Match("fld[itemsCh](p[0])", tb.T(s.Chan), nil) {
+				sel = s.Sel
+			}
+		}
+		if sel == nil {
+			L.Undecided(ruleID, "defaultPolicy.Push#verdict", "no select send on itemsCh", fn.Pos())
+			return
+		}
+		paths, _ := explore(fn, tb, ExploreOpts{Start: entryPos(fn)})
+		n := 0
+		var bad []string
+		for _, p := range paths {
+			r, isRet := p.End.(*ssa.Return)
+			if !isRet || !p.Has(isInstr(sel)) {
+				continue
+			}
+			n++
+			sent := p.SelectTaken(sel, 0)
+			v := tb.T(returnValues(r)[0]).String()
+			if (sent && v != "c[true]") || (!sent && v != "c[false]") {
+				bad = append(bad, fmt.Sprintf("path %s: batch sent=%v but Push answers %s", p.BlockPath(), sent, v))
+			}
+		}
+		L.Check(len(bad) == 0 && n >= 2, ruleID, "defaultPolicy.Push#verdict", "Push answers true exactly when the batch was handed to the policy goroutine", strings.Join(bad, "; ")+": the ring stripe reuses (or abandons) the batch on a wrong belief", fn.Pos())
+	})
 	c.Group(ruleID, "ringStripe.data#empty", func() {
 		// every value assigned to ringStripe.data is an EMPTY batch or the batch plus the pushed item: a
 		// fresh make(.., 0, capa), the old batch cut to [:0], or append(s.data, item). A batch that starts
